@@ -69,7 +69,7 @@ def grid_diff(r3, hemi, east, north, lat2, fn):
 # ------------------------------------------------------------------------------------------
 def ev_geo(case, rec):
     res, idx = tmcommon.forward_row(case, rec)
-    ell, prj = ELLS[case['ell']], PRJS[case['prj']]
+    ell, prj = cfg.ell_obj(case['ell']), PRJS[case['prj']]
     lat = case['lat']
     for d in res:
         if d is None:
@@ -143,7 +143,7 @@ def gen_grid(tier, seed):
 
 
 def ev_grid(case, rec):
-    ell, prj = ELLS[case['ell']], PRJS[case['prj']]
+    ell, prj = cfg.ell_obj(case['ell']), PRJS[case['prj']]
     a, invf = ELL_AF[case['ell']]
     fe, fn, k0, zw, icm = PRJ_PAR[case['prj']]
     z, hemi, north = case['zone'], case['hemi'], case['north']
@@ -174,6 +174,13 @@ def ev_grid(case, rec):
         rec.nontriv((case['ell'], case['prj'], z, hemi, east, north))
         rec.state((case['ell'], case['prj'], z, float(lat2).hex(), float(lon2).hex()))
         rec.dev('vs_oracle_inverse_lat_deg', abs(lat2 - la), one)
+        # every legal spelling of the hemisphere gives the same answer
+        if j % 4 == 0:
+            for sp in (hemi.lower(), hemi.upper()):
+                st_, r_ = rec.call(grid2geo, z, east, north, sp, ell, prj)
+                if st_ != 'ok' or tuple(r_) != tuple(r):
+                    rec.fail('hemisphere spelling %r gives a different result from %r' % (sp, hemi), site='convert:grid2geo:hemisphere-spelling',
+                             observed=r_, expected=list(r), case=one, coords=dict(co, spelling=sp))
         st, r3 = rec.call(geo2grid, lat2, lon2, z, ell, prj)
         if st != 'ok':
             rec.fail('geo2grid raised on a position returned by grid2geo', site='convert:geo2grid', observed=r3,
@@ -231,6 +238,10 @@ def gen_sa(tier, seed):
     # batch path: csv file in, csv file out
     yield {'zone': 55, 'north': 6.2e6, 'easts': es, 'mode': 'csv'}
     yield {'zone': 50, 'north': 1e7 - 1e-4, 'easts': es, 'mode': 'csv'}
+    # latitudes and longitudes strictly between -1 and 0 degrees (the degree field of the HP output is '-0')
+    yield {'zone': 52, 'north': 9.95e6, 'easts': es, 'mode': 'csv'}
+    yield {'zone': 30, 'north': 6.2e6, 'easts': [7.4e5, 7.8e5, 8.2e5, 8.305e5], 'mode': 'csv'}
+    yield {'zone': 30, 'north': 9.99e6, 'easts': [7.4e5, 8.0e5, 8.33e5], 'mode': 'csv'}
 
 
 def hp_to_dec(hp):
